@@ -125,7 +125,7 @@ func (t *Trie[K, V]) Get(key K) (v V, ok bool) {
 		return v, false
 	}
 	x, err := t.root.get(key, 0)
-	if x == nil || err != nil {
+	if x == nil || err != nil || !x.isValid {
 		return v, false
 	}
 
